@@ -143,7 +143,9 @@ def monotonic_factorization(arr: ArrayType1D) -> Tuple[int, np.ndarray, pd.Index
     pd_type = pandas_type_from_array(arr)
 
     if pd_type.kind == "M":
-        arr, pd_type = _convert_timestamp_to_tz_unaware(arr)
+        # (keep the pandas dtype: the second return value is the container's own dtype,
+        # which for polars / pyarrow inputs has no numpy kind)
+        arr, _ = _convert_timestamp_to_tz_unaware(arr)
 
     arr_list = _val_to_numpy(arr, as_list=True)
     if arr_list[0].dtype.kind == "O":
